@@ -74,8 +74,8 @@ func SuperviseSelf(prop string) {
 }
 
 // runtimeDeath finds a Go runtime fatal error in a stderr dump and tells whether the first goroutine listed (the one
-// that died) was inside the code under test: its innermost non-runtime frame belongs to gofiber/fiber (not to the
-// harness, package main / verifmc).
+// that died) was inside the code under test: its innermost non-runtime frame belongs to gofiber/fiber or to fasthttp
+// (not to the harness, package main / verifmc).
 func runtimeDeath(s string) (msg string, inSUT bool) {
 	i := strings.Index(s, "fatal error: ")
 	if i < 0 || (i > 0 && s[i-1] != '\n') {
@@ -103,7 +103,9 @@ func runtimeDeath(s string) (msg string, inSUT bool) {
 		if strings.HasPrefix(ln, "runtime.") || strings.HasPrefix(ln, "internal/") || strings.HasPrefix(ln, "sync.") || strings.HasPrefix(ln, "sync/") {
 			continue
 		}
-		return msg, strings.HasPrefix(ln, "github.com/gofiber/fiber/v3") && !strings.Contains(ln, "/verifrt")
+		// (fasthttp is the server the application under test runs on: a death while it serves / writes the response the
+		// handlers built is a death of the system under test; harness frames - main, verifmc - come further out)
+		return msg, (strings.HasPrefix(ln, "github.com/gofiber/fiber/v3") && !strings.Contains(ln, "/verifrt")) || strings.HasPrefix(ln, "github.com/valyala/fasthttp.")
 	}
 	return msg, false
 }
